@@ -446,6 +446,14 @@ def catalogue(uni, which="quick"):
     # C13: rational coordinates with denominators up to ~10^4 (derived values stay < 10^9)
     out.append(Real(uni, name="poly-frac-dense", numtype="frac", ctor="vertices", rot=1,
                     L2=Affine(F(101, 97), F(7, 53), F(1234, 567), F(-11, 89), F(103, 101), F(-987, 654))))
+    # C13/C14: numerators ~1e10 over the prime 999999937 < 1e9: coordinates are stored unchanged,
+    # crossing parameters have denominators far above 1e9
+    D = 999999937
+    out.append(Real(uni, name="poly-frac-big", numtype="frac", ctor="vertices", rot=2,
+                    L2=Affine(F(1000003417, D), F(70001111, D), F(1234567891, D), F(-110000017, D), F(1030000031, D), F(-987654321, D))))
+    # C12/C06: a drawing of about one millimetre given in metres (the universe is ~15 units wide)
+    out.append(Real(uni, name="sim-mmu-float", numtype="float", ctor="ctrlpoints", post=Affine(F(1, 15000), 0, 0, 0, F(1, 15000), 0)))
+    out.append(Real(uni, name="sim-mmu-frac", numtype="frac", ctor="vertices", post=Affine(F(1, 15000), 0, 0, 0, F(1, 15000), 0)))
     # C12: the same drawing in other units / places / orientations
     for nm, sc, tx, ty, rot in (("mm", F(1, 1000), 0, 0, None), ("cm", F(1, 100), F(1, 3), 0, None), ("x20", 20, 0, 0, None),
                                 ("km", 10**5, 0, 0, None), ("far3", 1, 1000, -2000, None), ("far6", 1, 10**6, 10**6, None),
